@@ -10,7 +10,7 @@ ID = 'C29'
 ENGINE = 'seq'
 TECHNIQUE = 'runtime monitoring: generated create/assign/read histories against a per-instance dictionary model; concurrent reader/writer cases under a deterministic cooperative scheduler (opcode-level yield points), partly enumerated systematically (delay-bounded)'
 RULE = ('generated classes using MetaThreadSafeAttributes (1-4 attributes, optional subclass adding attributes, via the metaclass directly '
-        'or via miros.ThreadSafeAttributes), 2-5 instances created at random points (now and then an instance dies and a new one is created in its place, typically at the recycled address; some instances are made by copy.copy of another one and must be independent from then on), histories of plain assignment, augmented assignment '
+        'or via miros.ThreadSafeAttributes; a fifth of the classes forward unknown attribute names to a prototype instance through __getattr__), 2-5 instances created at random points (now and then an instance dies and a new one is created in its place, typically at the recycled address; some instances are made by copy.copy of another one and must be independent from then on), histories of plain assignment, augmented assignment '
         '(+=, -=, *=), reads and statements that touch TWO instances (objs[i].a += objs[j].a; a read of one instance on a comparison line followed by an assignment to another; an augmented assignment whose right-hand side raises, followed by an assignment to another instance); the statements are real source lines of a generated module (the descriptor inspects its caller\'s source). '
         'After every statement every attribute of every instance is read and compared with a per-instance dictionary model (fresh '
         'instance reads 0). Every fifth case is concurrent: 2-4 instances hold values from disjoint ranges (plus one never-assigned '
@@ -22,7 +22,7 @@ RULE = ('generated classes using MetaThreadSafeAttributes (1-4 attributes, optio
 CASES = {'quick': 1500, 'thorough': 100000}
 BUDGET = {'quick': 150, 'thorough': 600}
 REQUIRE = {'statements': 10000, 'reads_compared': 50000, 'fresh_instance_reads': 2000, 'subclass_cases': 100,
-           'concurrent_runs': 150, 'concurrent_reads_of_foreign_instance': 300, 'switch_inside_descriptor': 100, 'instances_replaced_by_new_ones': 1000, 'instances_made_by_shallow_copy': 500, 'systematic_schedules': 500, 'systematic_scenarios_exhausted': 2, 'statements_touching_two_instances': 400}
+           'concurrent_runs': 150, 'concurrent_reads_of_foreign_instance': 300, 'switch_inside_descriptor': 100, 'instances_replaced_by_new_ones': 1000, 'instances_made_by_shallow_copy': 500, 'systematic_schedules': 500, 'systematic_scenarios_exhausted': 2, 'statements_touching_two_instances': 400, 'instances_forwarding_unknown_names_to_a_prototype': 150}
 ASSUME = ['lost updates / errors / deadlocks on ONE shared instance are C27; the concurrent cases here let only the owner thread write an instance', 'one statement per source line']
 ANNOUNCE_CASES = True
 
@@ -149,10 +149,14 @@ def run_case(ctx, n):
   ninst = rng.randint(2, 5)
   lines = ['import gc', 'import copy', 'from miros.thread_safe_attributes import MetaThreadSafeAttributes',
            'from miros.activeobject import ThreadSafeAttributes', '']
+  # a fifth of the classes FORWARD unknown attribute names to a prototype instance (__getattr__: the parent / prototype / wrapper
+  # idiom); the prototype is another instance of the same class, with values of its own
+  forwarding = rng.random() < 0.2
+  fwd = ['  def __getattr__(self, name):', "    proto = self.__dict__.get('proto_')", '    if proto is None:', '      raise AttributeError(name)', '    return getattr(proto, name)', ''] if forwarding else []
   if via == 'meta':
-    lines += ['class K(metaclass=MetaThreadSafeAttributes):', '  _attributes = %r' % attrs, '']
+    lines += ['class K(metaclass=MetaThreadSafeAttributes):', '  _attributes = %r' % attrs] + fwd + ['']
   else:
-    lines += ['class K(ThreadSafeAttributes):', '  _attributes = %r' % attrs, '']
+    lines += ['class K(ThreadSafeAttributes):', '  _attributes = %r' % attrs] + fwd + ['']
   if sub:
     lines += ['class S(K):', '  _attributes = %r' % (attrs + sub_attrs), '']
   lines += ['def boom():', '  return 1 // 0', '', 'def run(probe):', '  objs = {}']
@@ -166,6 +170,7 @@ def run_case(ctx, n):
   body = []
   hist = []
   two = [0]
+  nfwd = [0]
   for k in range(nst):
     if created >= 2 and rng.random() < 0.12:
       # an instance dies and a NEW one takes its slot (CPython usually gives it the recycled address): it must read 0
@@ -186,6 +191,10 @@ def run_case(ctx, n):
     elif created < 2 or (created < ninst and rng.random() < 0.25):
       cls = 'S' if (sub and rng.random() < 0.5) else 'K'
       body.append('  objs[%d] = %s()' % (created, cls))
+      if forwarding and created >= 1:
+        # the new instance forwards unknown names to an older one; its own thread-safe attributes still start at 0
+        body.append('  objs[%d].proto_ = objs[%d]' % (created, rng.randrange(created)))
+        nfwd[0] += 1
       hist.append(('create', created, cls))
       created += 1
     else:
@@ -283,6 +292,7 @@ def run_case(ctx, n):
   ctx.count('instances_replaced_by_new_ones', replaced)
   ctx.count('instances_made_by_shallow_copy', copies)
   ctx.count('statements_touching_two_instances', two[0])
+  ctx.count('instances_forwarding_unknown_names_to_a_prototype', nfwd[0])
   ctx.distinct((2 if sub else 1, nattr + len(sub_attrs), created, nst, tuple(sorted(ops_used))))
   if state['bad']:
     ctx.violation(state['bad'][0], state['bad'][1], wit)
